@@ -144,6 +144,17 @@ func (p *Path) now() TimeV {
 	return t
 }
 
+// nowOrStub reads the clock for time.Since/time.Until: the harness's time.Now stub
+// when one is installed, the symbolic non-decreasing clock otherwise.
+func (p *Path) nowOrStub(pos token.Pos) TimeV {
+	if p.h != nil {
+		if stub, ok := p.h.Stubs["time.Now"]; ok {
+			return timeArg(p, p.callSSA(nil, pos, stub, nil, nil))
+		}
+	}
+	return p.now()
+}
+
 func init() {
 	M := func(name string, f func(p *Path, a []Value, pos token.Pos) Value) {
 		models[name] = func(p *Path, c *frame, pos token.Pos, fn *ssa.Function, a []Value) Value { return f(p, a, pos) }
@@ -224,10 +235,10 @@ func init() {
 		return p.timeSub(timeArg(p, a[0]), timeArg(p, a[1]))
 	})
 	M("time.Since", func(p *Path, a []Value, pos token.Pos) Value {
-		return p.timeSub(p.now(), timeArg(p, a[0]))
+		return p.timeSub(p.nowOrStub(pos), timeArg(p, a[0]))
 	})
 	M("time.Until", func(p *Path, a []Value, pos token.Pos) Value {
-		return p.timeSub(timeArg(p, a[0]), p.now())
+		return p.timeSub(timeArg(p, a[0]), p.nowOrStub(pos))
 	})
 	M("(time.Time).After", func(p *Path, a []Value, pos token.Pos) Value {
 		return p.timeLess(timeArg(p, a[1]), timeArg(p, a[0]))
